@@ -1,5 +1,6 @@
 import WhVerif.Util.Proto
 import WhVerif.Model.C10
+import WhVerif.Model.C10Regions
 namespace WhVerif.Driver.C10
 open Lean WhVerif.Proto WhVerif.C10
 
@@ -86,7 +87,40 @@ def sample? (j : Json) : Option (PhaseInfo × List SetRead) := do
   let rs ← (← getList? j "reads").mapM setRead?
   some (ph, rs)
 
+def optInt? (j : Json) : Option (Option Int) := if j.isNull then some none else (asInt? j).map some
+
+def userRegion? (j : Json) : Option (Nat × Region) := do
+  match ← asArr? j with
+  | [i, s, e] => some (← asNat? i, ← asInt? s, ← optInt? e)
+  | _ => none
+
+def span? (j : Json) : Option (Int × Int) := do
+  match ← asArr? j with
+  | [s, e] => some (← asInt? s, ← asInt? e)
+  | _ => none
+
+def ofRegion (r : Region) : Json :=
+  Json.arr #[ofInt r.1, match r.2 with | some e => ofInt e | none => Json.null]
+
+/-- `--regions` after F17: the normalised selection and which alignments (contig index, index in the contig)
+the write loop emits, by the literal loop (`runRegionsSkip`) and by the abstract one (`runRegions`) -/
+def regionsAnswer (user : List (Nat × Region)) (contigs : List (List (Int × Int))) : Json :=
+  let chroms : List (Chrom (Nat × Nat)) := contigs.zipIdx.map fun (spans, i) =>
+    ⟨⟨[], [], 0, true, false⟩, spans.zipIdx.map fun (se, k) => ⟨(i, k), "", false, false, false, se.1, se.2, none, {}⟩⟩
+  let sel := normalizeSel chroms user
+  let ofPos (a : Aln (Nat × Nat)) : Json := Json.arr #[ofNat a.rest.1, ofNat a.rest.2]
+  Json.mkObj [
+    ("norm", ofList (fun (cr : Chrom (Nat × Nat) × List Region) => ofList ofRegion cr.2) sel),
+    ("written", ofList ofPos (runRegionsSkip sel)),
+    ("once", ofList ofPos (runRegions sel))]
+
 def handle (op : String) (j : Json) : Option Json :=
+  if op == "c10.regions" then
+    match (getList? j "user").bind (·.mapM userRegion?),
+      (getList? j "contigs").bind (·.mapM fun c => (asArr? c).bind (·.mapM span?)) with
+    | some user, some contigs => some (regionsAnswer user contigs)
+    | _, _ => some badInput
+  else
   if op == "c10.decide" then
     match getNat? j "ploidy", (getObj? j "phase").bind phase?, (getList? j "reads").bind (·.mapM rvs?) with
     | some pl, some info, some reads =>
